@@ -21,6 +21,19 @@ def obs_of(info):
     return [[lib.cps(part), sorted([[str(k), str(v)] for k, v in props.items()])] for part, props in info]
 
 
+def dump_tree(prefixes):
+    return [{'len': length, 'low': lib.cps(low), 'high': lib.cps(high), 'props': sorted([str(k), str(v)] for k, v in props.items()),
+             'kids': dump_tree(children)} for length, low, high, props, children in prefixes]
+
+
+def flat_lines(level, depth=0):
+    out = []
+    for ln in level:
+        out.append({'indent': depth, 'ranges': [[list(lo), list(hi)] for lo, hi in ln['ranges']], 'props': [list(x) for x in ln['props']]})
+        out.extend(flat_lines(ln['kids'], depth + 1))
+    return out
+
+
 def shipped_worker(unit, emit):
     name, path, qs, dbfile = unit
     lib.load_stdnum()
@@ -74,6 +87,34 @@ def main():
             index.append({'m': 'numdb:generated', 'w': q, 'how': 'generated registry', 'file': text})
         if gi < 2:
             samples.append({'generated_registry': text, 'queries': sorted(qset)[:6]})
+    # ---- the tree numdb.read() builds = the tree the file means (NumDBFile!BuildTree), generated and shipped registries
+    tev, tidx = [], []
+    for gi, (lines, qs) in enumerate(regs[:150 if quick else 3000]):
+        text = '\n'.join(['# generated'] + ndb.serialise(lines)) + '\n'
+        real = numdb.read(io.StringIO(text))
+        tev.append({'lines': flat_lines(lines), 'obs': dump_tree(real.prefixes)})
+        tidx.append({'m': 'numdb:generated', 'w': text[:300], 'how': 'tree of a generated registry', 'site': ''})
+    for name, path in registries():
+        with open(path, encoding='utf-8') as fh:
+            tree, plines = ndb.parse_text(fh.read())
+        if len(plines) > 4000:
+            continue            # oui.dat: building a 30,000-line tree in TLC is quadratic; its lookups are covered below
+        lines = [{'indent': pl['indent'], 'ranges': [[lib.cps(lo), lib.cps(hi)] for lo, hi in pl['ranges']],
+                  'props': [[k, v] for k, v in pl['props']]} for pl in plines]
+        tev.append({'lines': lines, 'obs': dump_tree(numdb.get(name).prefixes)})
+        tidx.append({'m': 'numdb:' + name, 'w': name, 'how': 'tree of a shipped registry', 'site': ''})
+    tsh = []
+    for s_ in range(8):
+        ep, ip = os.path.join(chk.work, 'tree_%d.ndjson' % s_), os.path.join(chk.work, 'tree_%d.index' % s_)
+        n = 0
+        with open(ep, 'w') as fh, open(ip, 'w') as ih:
+            for e, m in list(zip(tev, tidx))[s_::8]:
+                n += 1
+                fh.write(json.dumps(dict(e, tid=n)) + '\n')
+                ih.write(json.dumps([n, m]) + '\n')
+        tsh.append({'events': ep, 'index': ip, 'n_events': n, 'n_traces': n})
+    rejt = chk.validate('Trace_NumDBTree', tsh, heap='4g', label='read() builds the tree the file means')
+    chk.report(rejt)
     # shard the generated events
     nsh = 8
     shards = []
